@@ -112,6 +112,72 @@ def differs(a, b):
     return None
 
 
+_ref_cache = {}
+FD_SLOTS = ['_total_phases', '_control_matrix', '_control_matrix_pc', '_filter_function', '_filter_function_gen',
+            '_filter_function_pc', '_filter_function_pc_gen', '_filter_function_2']
+FI_SLOTS = ['_t', '_tau', '_eigvals', '_eigvecs', '_propagators', '_total_propagator', '_total_propagator_liouville']
+FD_KEYS = ['phase_factors', 'first_order_integral', 'control_matrix_step']
+FI_KEYS = ['n_opers_transformed', 'basis_transformed']
+
+
+def reference(wk, g):
+    """what every slot / intermediate must contain if it is present and _omega is grid g (fresh computations)"""
+    key = (wk, g)
+    if key not in _ref_cache:
+        from filter_functions import numeric
+        w = world(wk)
+        om = w.W[g]
+        q = w.make()
+        B = np.array(q.get_control_matrix(om.copy(), cache_intermediates=True))
+        ref = {k: np.array(v) for k, v in q._intermediates.items()}
+        B4 = np.stack([0.25 * B, 0.75 * B])
+        ref.update({'_control_matrix': B, '_control_matrix_pc': B4,
+                    '_total_phases': np.array(w.make().get_total_phases(om.copy())),
+                    '_filter_function': np.array(w.make().get_filter_function(om.copy())),
+                    '_filter_function_gen': np.array(w.make().get_filter_function(om.copy(), which='generalized')),
+                    '_filter_function_2': np.array(w.make().get_filter_function(om.copy(), order=2)),
+                    '_filter_function_pc': numeric.calculate_pulse_correlation_filter_function(B4, 'fidelity'),
+                    '_filter_function_pc_gen': numeric.calculate_pulse_correlation_filter_function(B4, 'generalized')})
+        q.total_propagator_liouville
+        q.tau
+        for s_ in FI_SLOTS:
+            ref[s_] = np.array(getattr(q, s_))
+        _ref_cache[key] = ref
+    return _ref_cache[key]
+
+
+def invariant_violation(wk, p):
+    """the invariant of Properties/C07.v (Coherent) evaluated numerically on a real object: every value present
+    is the value for the object's current _omega; nothing frequency dependent is present without _omega"""
+    w = world(wk)
+    if p._omega is None:
+        for s_ in FD_SLOTS:
+            if getattr(p, s_) is not None:
+                return '%s is cached although _omega is None' % s_
+        for k in FD_KEYS:
+            if k in p._intermediates:
+                return "_intermediates['%s'] present although _omega is None" % k
+        g = 0
+    else:
+        gs = [g for g in range(3) if np.array_equal(p._omega, w.W[g])]
+        if not gs:
+            return '_omega is none of the requested grids'
+        g = gs[0]
+    ref = reference(wk, g)
+    for s_ in FD_SLOTS + FI_SLOTS:
+        v = getattr(p, s_)
+        if v is not None:
+            d = differs(v, ref[s_])
+            if d:
+                return '%s is not the value for the current _omega (grid %d): %s' % (s_, g, d)
+    for k in FD_KEYS + FI_KEYS:
+        if k in p._intermediates:
+            d = differs(p._intermediates[k], ref[k])
+            if d:
+                return "_intermediates['%s'] is not the value for the current _omega (grid %d): %s" % (k, g, d)
+    return None
+
+
 def battery(w, mini=False):
     """requests made after a history (mini: none -- in the exhaustive enumerations the last call of a longer
     history plays this role)"""
@@ -128,8 +194,14 @@ def battery(w, mini=False):
 def property_check(wk, history, mini=False):
     """run the history; returns (observations, list of (observable, detail))"""
     w = world(wk)
-    obs, objs, values = cs.run_history(w, history, want_values=True)
     bad = []
+
+    def after_call(n, objs):
+        for i, p in enumerate(objs):
+            v = invariant_violation(wk, p)
+            if v and not any(b[0] == 'invariant' for b in bad):
+                bad.append(('invariant', 'after call %d object %d: %s' % (n, i, v)))
+    obs, objs, values = cs.run_history(w, history, want_values=True, after_call=after_call)
     for n, (call, (val, exc)) in enumerate(zip(history, values)):
         if call[0] not in ('call', 'fail'):
             continue
